@@ -1364,3 +1364,90 @@ func sliceRootsOverlap(a, b ssa.Value) bool {
 	}
 	return false
 }
+
+// ---------------- FOLDRET ----------------
+
+func init() {
+	register("FOLDRET", "the `is a constant` flag of the constant folder means what its consumer takes it for: every function whose Boolean result feeds the operand-is-literal test of tryOptimizeBinaryOpExecute (which then evaluates the operator on an empty pair) returns true only together with a freshly built literal node, and false otherwise - never a computed flag such as `something was rewritten`", ruleFoldRet)
+}
+
+func ruleFoldRet(p *Prog, r *Result) {
+	root := p.MethodByName("ExpressionOptimizer", "tryOptimizeBinaryOpExecute")
+	if root == nil {
+		r.undecided("anchor: (*ExpressionOptimizer).tryOptimizeBinaryOpExecute not found")
+		return
+	}
+	// the planning-time evaluation and the Boolean values guarding it
+	var exec *ssa.Call
+	allInstrs(root, func(in ssa.Instruction) {
+		if c, ok := in.(*ssa.Call); ok {
+			if g := c.Call.StaticCallee(); g != nil && g.Name() == "Execute" {
+				exec = c
+			}
+		}
+	})
+	if exec == nil {
+		r.undecided("anchor: planning-time Execute not found in tryOptimizeBinaryOpExecute")
+		return
+	}
+	producers := map[*ssa.Function]bool{}
+	seen := map[ssa.Value]bool{}
+	var trace func(v ssa.Value)
+	trace = func(v ssa.Value) {
+		if v == nil || seen[v] {
+			return
+		}
+		seen[v] = true
+		switch x := v.(type) {
+		case *ssa.Phi:
+			for _, e := range x.Edges {
+				trace(e)
+			}
+		case *ssa.Extract:
+			if c, ok := x.Tuple.(*ssa.Call); ok {
+				if g := c.Call.StaticCallee(); g != nil && p.InPkg(g) {
+					producers[g] = true
+				}
+			}
+		}
+	}
+	for _, a := range dominatingAtoms(exec.Block()) {
+		if bv, isB := constBool(a.Y); isB && ((a.Op == token.EQL) == bv) {
+			trace(a.X)
+		}
+	}
+	if len(producers) == 0 {
+		r.hit("producers", p.Pos(root.Pos()), "the operand-is-literal flags guarding the planning-time evaluation do not come from callee results")
+		return
+	}
+	var ps []*ssa.Function
+	for g := range producers {
+		ps = append(ps, g)
+	}
+	sort.Slice(ps, func(i, j int) bool { return p.FName(ps[i]) < p.FName(ps[j]) })
+	n := 0
+	for _, g := range ps {
+		idx := 0
+		for _, b := range g.Blocks {
+			ret := retOf(b)
+			if ret == nil || len(ret.Results) != 2 {
+				continue
+			}
+			n++
+			idx++
+			key := fmt.Sprintf("%s|return#%d", p.FName(g), idx)
+			flag := retVal(ret, 1)
+			bv, isC := constBool(flag)
+			switch {
+			case !isC:
+				r.hit(key, p.InstrPos(ret), "the flag returned here is computed, not the constant true/false: its consumer reads true as `the returned node is a literal` and evaluates the enclosing operator on an empty pair")
+			case bv:
+				al, ok := stripConv(retVal(ret, 0)).(*ssa.Alloc)
+				r.add(ok && literalNodeTypes[typeName(al.Type())], key, p.InstrPos(ret), "true is returned together with a freshly built literal node")
+			default:
+				r.ok(key, p.InstrPos(ret), "not a literal: false")
+			}
+		}
+	}
+	r.floor("returns of the folder's flag producers", n, 8)
+}
